@@ -205,6 +205,22 @@ def failed_calls_silent(pair, r, res, tier):
         scenario(setup, "append W 7a7a 79", "W", "D", "append after %d appends" % prior)
         if found:
             return found
+    # writer: every OTHER call that touches storage — reads of held blocks (a failing read must not be announced as a missing
+    # block), proof creation, missing-node queries, clears, make_read_only — with the fault at every storage operation (reads
+    # and length queries included)
+    wsetup = ["disk D", "new W D writer", "sub W s1"] + ["append W %s" % hexb(bytes([65 + j]) * (j + 1)) for j in range(6)]
+    for target, label in [("get W 0", "get of a held (flushed) block"), ("get W 5", "get of a held (unflushed) block"),
+                          ("prove W 2,0 - - -", "create_proof block"), ("prove W 1,1 - - 0,6", "create_proof block+upgrade"),
+                          ("prove W - 4,0 3 -", "create_proof hash+seek"), ("missing W 3", "missing_nodes"),
+                          ("clear W 1 3", "clear"), ("readonly W", "make_read_only")]:
+        scenario(wsetup, target, "W", "D", label + " on a writer")
+        if found:
+            return found
+    # the same after a reopen (cold instance: the first call flushes, nothing is cached in memory)
+    for target, label in [("get W 3", "get of a held block"), ("prove W 4,0 - - 0,6", "create_proof block+upgrade"), ("clear W 0 2", "clear")]:
+        scenario(wsetup + ["drop W", "open W D", "sub W s1"], target, "W", "D", label + " on a reopened writer")
+        if found:
+            return found
     # replica: proof applications (block + upgrade first, then blocks) in every phase
     im.cmd("reset")
     for c in ["disk D", "new W D writer", "append W 61 6262 63 6464 65 66 67 68"]:
@@ -225,6 +241,178 @@ def failed_calls_silent(pair, r, res, tier):
         scenario(setup, "apply R " + proofs[k], "R", "E", "proof application number %d on a replica" % k)
         if found:
             return found
+    # replica: reads of held blocks, proof creation and queries on a replica that holds part of the log
+    rsetup = ["disk E", "new R E replica", "sub R s1"] + ["apply R " + q for q in proofs[:4]]
+    for target, label in [("get R 2", "get of a held block"), ("get R 5", "get of a held block"), ("missing R 1", "missing_nodes"),
+                          ("prove R 2,0 - - -", "create_proof block"), ("clear R 2 3", "clear"), ("readonly R", "make_read_only")]:
+        scenario(rsetup, target, "R", "E", label + " on a replica")
+        if found:
+            return found
+    return found
+
+
+def fanout_spec(cap, ops):
+    """The abstract reading of the event channel (coq/BroadcastFacts.v, `spec_step`): the list of messages sent so far and
+    one cursor per live subscriber; nothing else. Returns the expected answer tokens of `bcx CAP ops`."""
+    sent, cur, out = [], [], []
+    for o in ops:
+        live = [p for p in cur if p is not None]
+        tail = len(sent)
+        head = max(min(live + [tail]), tail - cap)
+        if o[0] == "s":
+            if not live:
+                out.append("inactive")
+            else:
+                out.append("ok:%d" % sent[tail - cap] if tail - head == cap else "ok")
+                sent.append(int(o[1:]))
+        elif o == "n":
+            cur.append(tail)
+            out.append("id:%d" % (len(cur) - 1))
+        elif o == "l":
+            out.append("n:%d:%d" % (tail - head, len(live)))
+        else:
+            k = int(o[1:])
+            if k >= len(cur) or cur[k] is None:
+                out.append("x")
+            elif o[0] == "d":
+                cur[k] = None
+                out.append("done")
+            elif cur[k] + cap < tail:
+                out.append("ov:%d" % (tail - cap - cur[k]))
+                cur[k] = tail - cap
+            elif cur[k] < tail:
+                out.append("m:%d" % sent[cur[k]])
+                cur[k] += 1
+            else:
+                out.append("empty")
+    return out
+
+
+def fanout_ops(r):
+    """random `bcx` operation list: capacities 1..4 and 32, up to 4 subscribers alive, bursts of sends longer than the capacity,
+    partial and complete drains, late subscribers, drops of lagging subscribers, identifiers that do not exist"""
+    cap = r.choice([1, 2, 3, 4, 32])
+    ops, nrcv, alive, msg = [], 0, [], 0
+    for step in range(r.randrange(3, 20)):
+        c = r.random()
+        if (c < 0.18 or (step == 0 and c < 0.8)) and len(alive) < 4:
+            ops.append("n"); alive.append(nrcv); nrcv += 1
+        elif c < 0.5:
+            n = r.choice([1, 1, 2, cap, cap + 1, cap + r.randrange(1, 4), 2 * cap + 1])
+            for _ in range(n):
+                msg = msg + 1 if r.random() < 0.9 else r.randrange(0, 3)     # mostly distinct, sometimes repeated values
+                ops.append("s%d" % msg)
+        elif c < 0.8:
+            k = r.choice(alive) if alive and r.random() < 0.9 else r.randrange(0, nrcv + 2)
+            ops.extend(["r%d" % k] * r.choice([1, 1, 2, cap, cap + 2]))
+        elif c < 0.9:
+            k = r.choice(alive) if alive and r.random() < 0.85 else r.randrange(0, nrcv + 2)
+            ops.append("d%d" % k)
+            if k in alive:
+                alive.remove(k)
+        else:
+            ops.append("l")
+        if r.random() < 0.25:
+            ops.append("l")
+    return cap, ops
+
+
+def fanout_crosscheck(pair, res, seed, tier):
+    """The fan-out itself: the dependency crate async-broadcast, configured exactly as Events::new() of src/replication/events.rs
+    configures it, against coq/Broadcast.v (the extracted model; BroadcastFacts.v proves that it refines the abstract reading: every
+    subscriber sees the messages sent since it subscribed, in order, losing exactly the oldest ones when it falls more than the
+    capacity behind) and against the abstract reading itself (fanout_spec), token by token."""
+    found = []
+    r = random.Random(seed * 1000003 + 13)
+    for k in range(400 if tier == "quick" else 8000):
+        cap, ops = fanout_ops(r)
+        cmd = "bcx %d %s" % (cap, " ".join(ops))
+        ia = pair.impl.cmd(cmd)
+        ma = pair.model.cmd(cmd)
+        exp = fanout_spec(cap, ops)
+        res.count("fanout-sequences")
+        res.count("fanout-answers-compared", len(ops))
+        it, mt = ia.split(" ")[1:], ma.split(" ")[1:]
+        if not ia.startswith("ok") or it != mt or it != exp or len(it) != len(ops):
+            j = next((i for i in range(len(ops)) if i >= len(it) or i >= len(mt) or it[i] != mt[i] or it[i] != exp[i]), len(ops))
+            found.append(dict(key="fanout:model", what="event channel (async-broadcast as Events::new() configures it), capacity %d: operation %d (%s) of "
+                              "the sequence answered %s on the crate, %s in Broadcast.v, %s in the abstract reading" %
+                              (cap, j, ops[j] if j < len(ops) else "-", (it[j] if j < len(it) else ia[:60]), (mt[j] if j < len(mt) else ma[:60]),
+                               exp[j] if j < len(exp) else "-"),
+                              replay=dict(cmd=cmd, first_difference=j, impl=ia[:600], model=ma[:600], spec="ok " + " ".join(exp)[:600])))
+            break
+        for t in it:
+            if t.startswith("ov:"):
+                res.count("fanout-overflowed-answers")
+            elif t.startswith("ok:"):
+                res.count("fanout-sends-dropping-oldest")
+    return found
+
+
+def fanout_on_core(pair, res, seed, tier):
+    """The channel INSIDE Hypercore (Events::new(): capacity 32, overflow mode, kept inactive receiver; Events::send ignores the Inactive
+    error), observed through event_subscribe on a real writer, against the abstract reading with capacity 32: appends made before anybody
+    subscribed are not seen; a subscriber that lets more than 32 events queue up is answered Overflowed(n) for exactly the n oldest ones and
+    then receives the newest 32 in order (BroadcastFacts.overflow_loses_oldest); a late subscriber sees the events sent since it subscribed.
+    Implementation only (the model driver keeps an unbounded event list per core)."""
+    im = pair.impl
+    found = []
+    r = random.Random(seed * 1000003 + 29)
+
+    def text(tok):
+        if tok.startswith("ov:"):
+            return "O:" + tok[3:]
+        m = int(tok[2:])
+        return "U" if m % 2 == 0 else "H:%d:1:0" % (m // 2)
+
+    for k in range(6 if tier == "quick" else 80):
+        n_before = r.choice([0, 1, 3])
+        n1 = r.choice([5, 15, 16, 17, 20, 33, 40])
+        late_at = r.randrange(0, n1 + 1)
+        mid_drain = r.choice([None, r.randrange(0, n1 + 1)])
+        im.cmd("reset"); im.cmd("disk D"); im.cmd("new W D writer")
+        ops, total = [], 0
+
+        def append():
+            nonlocal total
+            im.cmd("append W %02x" % (total % 256))
+            ops.extend(["s%d" % (2 * total), "s%d" % (2 * total + 1)])     # DataUpgrade, Have(total, 1)
+            total += 1
+
+        def drain(name, rid, what):
+            got = im.cmd("events W " + name)
+            exp, n = [], 0
+            while True:
+                t = fanout_spec(32, ops + ["r%d" % rid] * (n + 1))[-1]
+                if t == "empty":
+                    break
+                exp.append(text(t)); n += 1
+            ops.extend(["r%d" % rid] * (n + 1))
+            res.count("fanout-core-drains")
+            if any(e.startswith("O:") for e in exp):
+                res.count("fanout-core-overflowed-drains")
+            if got != "ok" + "".join(" " + e for e in exp):
+                found.append(dict(key="fanout:core", what="%s: subscriber %s of a writer received [%s]; the channel as events.rs configures it "
+                                  "(capacity 32, overflow mode) gives [%s]" % (what, name, got[3:][:300], " ".join(exp)[:300]),
+                                  replay=dict(appends_before_subscribing=n_before, appends=n1, second_subscriber_after=late_at,
+                                              first_subscriber_drains_after=mid_drain, channel_ops=" ".join(ops))))
+                return False
+            return True
+
+        for _ in range(n_before):
+            append()
+        im.cmd("sub W s1"); ops.append("n")
+        ok = True
+        for i in range(n1 + 1):
+            if i == late_at:
+                im.cmd("sub W s2"); ops.append("n")
+            if ok and i == mid_drain:
+                ok = drain("s1", 0, "after %d appends" % i)
+            if i < n1:
+                append()
+        ok = ok and drain("s1", 0, "after %d appends" % n1) and drain("s2", 1, "subscribed after %d of %d appends" % (late_at, n1))
+        if not ok:
+            break
     return found
 
 
@@ -258,14 +446,19 @@ def main(tier, seed):
             res.disagreements.extend(pair.disagreements[:2]); pair.disagreements = []
         res.add_case(("repeated-upgrade",), True)
         res.violations.extend(failed_calls_silent(pair, r, res, tier))
-        res.add_case(("failed-calls-silent",), True, sample="I/O error at every storage operation of appends and proof applications with a subscriber attached")
+        res.add_case(("failed-calls-silent",), True, sample="I/O error at every storage operation (reads included) of appends, proof applications, gets of held blocks, create_proof, missing_nodes, clear, make_read_only with a subscriber attached")
         res.extra["commands_compared"] = pair.ncmp
+        res.violations.extend(fanout_crosscheck(pair, res, seed, tier))
+        res.add_case(("fanout",), True, sample="bcx <capacity> <random send/subscribe/try_recv/drop/len sequence>: async-broadcast crate vs Broadcast.v vs abstract reading")
+        res.violations.extend(fanout_on_core(pair, res, seed, tier))
+        res.add_case(("fanout-core",), True, sample="writer with two subscribers, up to 40 appends between drains: Overflowed(n) then the newest 32 events, as the abstract reading with capacity 32 says")
     finally:
         pair.close()
     return res.finish(
         "theorems of coq/props/C13.v (events of every model step equal the event specification); events are drained after every "
         "call from 1-3 subscribers on writers and replicas and compared with the specification and with the model "
-        "(fan-out by async_broadcast is a run-time property, covered for < 32 undrained events)",
+        "(fan-out: coq/Broadcast.v models async_broadcast as configured by events.rs and is run against the crate itself on random sequences, "
+        "BroadcastFacts.v proves in-order, loss-free delivery while a subscriber is at most the capacity behind and the exact loss otherwise)",
         "writer histories with gets of held/missing indices, empty batches, reopen; replica worlds with accepted and refused proofs")
 
 
